@@ -136,9 +136,84 @@ def call(c):
         return r
 
 
+def call_long(c):
+    """A spline with very many intervals (> 100000), evaluated at clusters of points in consecutive intervals.
+    call = {'long': True, 'nord': k, 'nbk': N, 'spacing': 'dyadic'|'linspace'|'jitter', 'seed': int,
+            'clusters': [[first interval (0-based, counted from the first real breakpoint), number of consecutive intervals], ...],
+            'fracs': [positions inside an interval, in (0, 1]], 'sorted': bool}
+    Per point the answer carries the WINDOW the value depends on (2k knots, k coefficients around the interval found here with
+    numpy.searchsorted on the object's own knots) -- BSpline/WindowProofs.eval1_window: the spline value is that of the window."""
+    k = int(c['nord'])
+    N = int(c['nbk'])
+    rs = np.random.RandomState(int(c['seed']) % (2 ** 31))
+    if c['spacing'] == 'dyadic':
+        bkpt = float(rs.randint(-64, 64)) / 4.0 + np.arange(N, dtype='d') * 2.0 ** -int(c.get('log2step', 10))
+    elif c['spacing'] == 'linspace':
+        bkpt = np.linspace(0.0, 1.0, N)
+    else:
+        bkpt = np.cumsum(rs.randint(1, 4, N).astype('d')) * 2.0 ** -12
+    try:
+        with warnings.catch_warnings():
+            warnings.simplefilter('ignore')
+            b = bspline(np.array([bkpt[0], bkpt[-1]]), nord=k, bkpt=bkpt.copy())
+    except Exception as e:  # noqa: BLE001
+        return dict(err(e), stage='init')
+    out = {'long': True}
+    try:
+        gb = np.asarray(b.breakpoints)
+        nc = gb.size - k
+        out['nknots'] = int(gb.size)
+        out['knots_sorted'] = bool(np.all(np.diff(gb) >= 0))
+        out['knots_expected'] = int(N + 2 * (k - 1))
+        out['mask_all_true'] = bool(np.all(b.mask)) and b.mask.size == gb.size
+        out['coeff_shape_ok'] = tuple(b.coeff.shape) == (nc,)
+        coeff = rs.randint(-512, 512, nc).astype('d') / 64.0
+        b.coeff = coeff.copy()
+        gb64 = gb.astype('d')
+        pts = []
+        for j0, cnt in c['clusters']:
+            for j in range(int(j0), int(j0) + int(cnt)):
+                l = min(max(j + k - 1, k - 1), nc - 1)
+                for fr in c['fracs']:
+                    pts.append(gb64[l] + float(fr) * (gb64[l + 1] - gb64[l]))
+        span = gb64[nc] - gb64[k - 1]
+        outside = [gb64[k - 1] - span / 1024.0, gb64[nc] + span / 1024.0]
+        xe = np.array(pts + outside, dtype='d')
+        if not c.get('sorted'):
+            xe = xe[rs.permutation(xe.size)]
+        xarg = xe.copy()
+        with warnings.catch_warnings():
+            warnings.simplefilter('ignore')
+            yy, mask = b.value(xarg)
+            perm = xe.argsort(kind='stable')
+            xs = xe[perm]
+            indx = b.intrv(xs)
+            bs = np.asarray(b.bsplvn(xs, indx))
+            _act, lower, upper = b.action(xs)
+        out['args_mutated'] = [] if np.array_equal(xarg, xe) else ['value.x']
+        out['finite'] = bool(np.all(np.isfinite(yy)) and np.all(np.isfinite(bs)))
+        ys, ms = yy[perm], mask[perm]
+        lh = np.clip(np.searchsorted(gb64, xs, side='left') - 1, k - 1, nc - 1)      # largest l with gb[l] < x, clamped
+        inr = (xs >= gb64[k - 1]) & (xs <= gb64[nc])
+        out['points'] = [{'x': float(xs[i]), 'l': int(lh[i]), 'knots': fl(gb64[lh[i] - k + 1:lh[i] + k + 1]),
+                          'coeff': fl(coeff[lh[i] - k + 1:lh[i] + 1]), 'y': float(ys[i]), 'mask': bool(ms[i]),
+                          'indx': int(indx[i]), 'row': fl(bs[i])} for i in range(xs.size) if inr[i]]
+        out['outside_masks'] = [bool(ms[i]) for i in range(xs.size) if not inr[i]]
+        used = sorted(set(int(v) for v in indx))
+        out['ranges'] = [[v - k + 1, int(lower[v - k + 1]), int(upper[v - k + 1])] for v in used]
+        out['indx_all'] = [int(v) for v in indx]
+        out['nonempty'] = int((upper >= lower).sum())
+        out['nseg'] = int(lower.size)
+        return out
+    except Exception as e:  # noqa: BLE001
+        r = err(e)
+        r['stage'] = 'value'
+        return r
+
+
 def main():
     calls = json.load(sys.stdin)
-    json.dump({'pydl_file': pydl.__file__, 'results': [call(c) for c in calls]}, sys.stdout)
+    json.dump({'pydl_file': pydl.__file__, 'results': [call_long(c) if c.get('long') else call(c) for c in calls]}, sys.stdout)
 
 
 if __name__ == '__main__':
